@@ -16,9 +16,10 @@ broadcast use {vstd::std_specs::hash::group_hash_axioms, axh::axiom_uuid_key_mod
 //@include regions/snapshot_impl.rs
 //@include regions/apply_op.rs
 //@include regions/sync_impl.rs
+//@include regions/taskdb_types.rs
+//@include regions/taskdb_sync_wrapper.rs
 //@include lemmas/history.rs
 // ---- functions these properties depend on that are NOT verified (outside the verifier's reach): hashed; a change -> UNDECIDED
-//@watch C01 C02 C04 C12 C14 C15 :: src/taskdb/mod.rs :: impl<S: Storage> TaskDb<S> :: fn sync
 //@watch C12 :: src/taskdb/snapshot.rs :: impl SnapshotTasks :: fn encode
 //@watch C12 :: src/taskdb/snapshot.rs :: impl SnapshotTasks :: fn decode
 //@watch C12 :: src/taskdb/snapshot.rs :: impl Serialize for SnapshotTasks
